@@ -78,3 +78,86 @@ def flat_lark(tree):
                 out.append(f)
         return (name, out)
     return ("A", tree.data + ":" + "|".join(str(t) for t in tree.children))
+
+
+# ------------------------------------------------------------------ characters -> tokens (independent reading of the documented lexical rules)
+WS = " \t\f\r\n"
+OPS = {"U": "U", "u": "U", "∧": "U", "O": "O", "o": "O", "∨": "O", "X": "X", "x": "X", "⊻": "X"}
+ASCII_DIGITS = "0123456789"
+
+
+def tokenize(s):
+    """tokens of s per the documented language: keys [n], packages [nP] / [nPa..b], time conditions [UB1..3], round brackets, U/O/X (either
+    letter case) and their symbols, ASCII white space between tokens and inside the square brackets. Raises Reject for anything else; returns None
+    when the string is outside what the documentation fixes (a repeatability written with non-ASCII decimal digits)."""
+    toks, i, n = [], 0, len(s)
+
+    def skip(j):
+        while j < n and s[j] in WS:
+            j += 1
+        return j
+
+    def digits(j):
+        k = j
+        while k < n and s[k] in ASCII_DIGITS:
+            k += 1
+        return k
+
+    while True:
+        i = skip(i)
+        if i >= n:
+            return toks
+        c = s[i]
+        if c in "()":
+            toks.append(c)
+            i += 1
+        elif c in OPS:
+            toks.append(OPS[c])
+            i += 1
+        elif c == "[":
+            j = skip(i + 1)
+            if s.startswith("UB", j) and j + 2 < n and s[j + 2] in "123":
+                text, j = s[j:j + 3], j + 3
+            else:
+                k = digits(j)
+                if k == j:
+                    raise Reject("no key after [")
+                text, j = s[j:k], k
+                if j < n and s[j] == "P":
+                    text, j = text + "P", j + 1
+                    k = skip(j)
+                    if k < n and s[k] != "]":
+                        # optional repeatability a..b with b not starting with 0
+                        m = k
+                        while m < n and s[m].isdecimal():
+                            m += 1
+                        if m == k or not s.startswith("..", m) or m + 2 >= n or not s[m + 2].isdecimal() or s[m + 2] in "0٠":
+                            raise Reject("malformed repeatability")
+                        e = m + 2
+                        while e < n and s[e].isdecimal():
+                            e += 1
+                        if any(ch not in ASCII_DIGITS for ch in s[k:m] + s[m + 2:e]):
+                            return None
+                        text, j = text + s[k:e], e
+            j = skip(j)
+            if j >= n or s[j] != "]":
+                raise Reject("missing ]")
+            toks.append(("A", text))
+            i = j + 1
+        else:
+            raise Reject(f"unexpected character {c!r}")
+
+
+def accepts(s):
+    """True / False per the documented language, None if the documentation does not fix it"""
+    try:
+        toks = tokenize(s)
+    except Reject:
+        return False
+    if toks is None:
+        return None
+    try:
+        parse(toks)
+        return True
+    except Reject:
+        return False
